@@ -28,7 +28,7 @@ ASSUMPTIONS = ["float64 arithmetic modelled as exact real arithmetic",
                "inner linear solver of LinSolve/SystemOfEquations/StaticCondensation is a contract oracle (C05 covers solvers)",
                "obligations are stated per independent real symbol of the (possibly structured) inputs: "
                "Re sum g*dx/ds == d/ds Re sum w*y"]
-ITEM_TIMEOUT = {"quick": 110, "thorough": 900}
+ITEM_TIMEOUT = {"quick": 240, "thorough": 900}
 
 
 def items(tier):
